@@ -153,15 +153,15 @@ CLAIMED['C16'] = (
 CLAIMED['C12'] = (
     'DESIGN.md 4 C12',
     'Reduced scope. Proof: ServeMpsMedia.calculate_media_segment_index delivers source segment Mof(T0) + (n - startNumber) '
-    'for number n (T0 = the Period source offset in the track timescale), raises ValueError (404) exactly beyond the end '
-    'of the media, origin time = minus the start of the segment nearest the offset; create_all_vod_periods lists all '
+    'for number n (T0 = the Period source offset in the track timescale), raises ValueError (404) exactly for a number below '
+    'startNumber or beyond the end of the media, origin time = minus the start of the segment nearest the offset; create_all_vod_periods lists all '
     'period definitions contiguously from 0 with sum = total; create_all_live_periods lists consecutive repetitions '
     'contiguously, covering [firstAvailableTime, elapsedTime], with (definition, loop) pairs - hence ids - pairwise distinct, '
     'and terminates; lemma: served decode times start at minus the loop origin and are gapless; the media handler with a '
     'ServeMpsMedia index ($Number$ requests) serves the fragment, number and decode time that contract names.',
     'Trusted: pyvc encoding; create_period / DashTiming / total_duration abstract (durations >= 1 us, total = their sum); '
-    'floats as exact rationals. Region: requested number >= startNumber (known finding otherwise); every $Time$-addressed period '
-    'request fails an assertion (known finding). Payload identity, routing '
+    'floats as exact rationals. Every $Time$-addressed period '
+    'request fails an assertion (known finding). The lookup decorator uses_multi_period_stream (404 for an unknown name) is proved; payload identity, routing '
     'and templates not covered.',
     'contract-based deductive verification (AST->VC generator, z3 + cvc5), native replay by source extraction')
 
